@@ -284,3 +284,180 @@ Example C01_bicgstabl_bound_attained :
   | (KOk r, _) => k_it r = 2 /\ p_maxiter (c01_kprm 1 (qc 0 1)) = 1 | _ => False
   end.
 Proof. vm_compute. split; reflexivity. Qed.
+
+(* =====================================================================================
+   Last clause of C01: "the stationary Richardson iteration converges at the rate of the cycle's
+   contraction factor" (KrylovRate.v, KrylovRateAmg.v, KrylovRateCert.v, KrylovRateQc.v).
+   Ordered commutative ring (the record's operator< with the laws [ordered S] of AmgOrder.v); no square
+   roots, no division.  n = vector length, A linear, B ANY length-preserving map (the preconditioner);
+     ipn n x y        = sum_{i<n} x_i y_i                 energy n A e  = <A e, e>
+     err_step A B e   = e - B (A e) = (I - B A) e         spow d k      = d^k
+   u is a solution (the right-hand side is A u), so [vsub u x] is the error of the iterate x.
+   Damping 1 (p_damping prm = 1) as in the property text.  [rich_iter] is the textbook iteration of
+   KrylovRef.v, [richardson] the workspace model of amgcl/solver/richardson.hpp that the correspondence
+   check ties to the C++ (C05_richardson_is_kfold: the model returns rich_iter after k_it steps). *)
+From Amgcl Require Import AmgOrder KrylovRate.
+
+(* contraction by delta in the energy norm  ==>  energy of the error <= delta^(2k) * initial energy *)
+Theorem C01_richardson_rate_iterates (S : Scalar) (Srt : Sring S) (Ord : ordered S) n (A B : vec S -> vec S)
+  (A_len : forall v, length v = n -> length (A v) = n) (B_len : forall v, length v = n -> length (B v) = n)
+  (A_lin : linear_on n A) (delta : S) (u x0 : vec S) k :
+  length u = n -> length x0 = n ->
+  (forall e, length e = n -> ole (energy n A (err_step A B e)) (delta * delta * energy n A e)) ->
+  ole (energy n A (vsub u (rich_iter A B s1 (A u) k x0))) (spow delta (2 * k) * energy n A (vsub u x0)).
+Proof. exact (rich_rate Srt Ord n A B A_len B_len A_lin delta u x0 k). Qed.
+Print Assumptions C01_richardson_rate_iterates.
+
+(* the same for the iterate RETURNED by the workspace model after k_it iterations *)
+Theorem C01_richardson_rate (S : Scalar) (Srt : Sring S) (Seqb : seqb_spec S) (Ord : ordered S) n (A B : vec S -> vec S)
+  (A_len : forall v, length v = n -> length (A v) = n) (B_len : forall v, length v = n -> length (B v) = n)
+  (A_lin : linear_on n A) (delta : S) prm (u x0 : vec S) junk nr r w :
+  length u = n -> length x0 = n -> p_damping prm = s1 ->
+  k_prologue norm_a prm (A u) = Go nr ->
+  richardson A B prm (A u) x0 junk = (KOk r, w) ->
+  (forall e, length e = n -> ole (energy n A (err_step A B e)) (delta * delta * energy n A e)) ->
+  ole (energy n A (vsub u (k_x r))) (spow delta (2 * k_it r) * energy n A (vsub u x0)).
+Proof. exact (richardson_rate Srt Seqb Ord n A B A_len B_len A_lin delta prm u x0 junk nr r w). Qed.
+Print Assumptions C01_richardson_rate.
+
+(* strict version: [dead] = "the error is 0" in whichever sense is closed under I - B A (e = 0, or the
+   residual A e = 0).  Strict decrease on every live error  ==>  as long as the error of step k is live,
+   the energy after step k+1 is below the energy of EVERY earlier iterate. *)
+Theorem C01_richardson_strict_decrease (S : Scalar) (Srt : Sring S) (Ord : ordered S) n (A B : vec S -> vec S)
+  (A_len : forall v, length v = n -> length (A v) = n) (B_len : forall v, length v = n -> length (B v) = n)
+  (A_lin : linear_on n A) (dead : vec S -> Prop) (u x0 : vec S) :
+  length u = n -> length x0 = n ->
+  (forall e, length e = n -> dead e -> dead (err_step A B e)) ->
+  (forall e, length e = n -> ~ dead e -> olt (energy n A (err_step A B e)) (energy n A e)) ->
+  forall k, ~ dead (vsub u (rich_iter A B s1 (A u) k x0)) ->
+  forall j, j <= k ->
+    olt (energy n A (vsub u (rich_iter A B s1 (A u) (Datatypes.S k) x0)))
+        (energy n A (vsub u (rich_iter A B s1 (A u) j x0))).
+Proof. exact (rich_strict Srt Ord n A B A_len B_len A_lin dead u x0). Qed.
+Print Assumptions C01_richardson_strict_decrease.
+
+(* both notions of "zero error" are closed under I - B A when B 0 = 0 *)
+Theorem C01_zero_error_stays_zero (S : Scalar) (Srt : Sring S) n (A B : vec S -> vec S)
+  (A_len : forall v, length v = n -> length (A v) = n) (A_lin : linear_on n A) (B_zero : B (vzero n) = vzero n)
+  (e : vec S) : length e = n ->
+  (e = vzero n -> err_step A B e = vzero n) /\ (A e = vzero n -> A (err_step A B e) = vzero n).
+Proof.
+  exact (fun L => conj (dead_zero_step Srt n A B A_len A_lin B_zero e L) (dead_res_step Srt n A B B_zero e L)).
+Qed.
+Print Assumptions C01_zero_error_stays_zero.
+
+(* symmetric A: the energy change of one step is the quantity C02-B1 bounds for the AMG cycle,
+   J_g(B g) = <A B g, B g> - 2 <g, B g> at g = A e (the residual) *)
+Theorem C01_richardson_energy_step (S : Scalar) (Srt : Sring S) n (A B : vec S -> vec S)
+  (A_len : forall v, length v = n -> length (A v) = n) (B_len : forall v, length v = n -> length (B v) = n)
+  (A_lin : linear_on n A)
+  (A_sym : forall x y, length x = n -> length y = n -> ipn n (A x) y = ipn n x (A y)) (e : vec S) :
+  length e = n -> energy n A (err_step A B e) = energy n A e + Jform n A B (A e).
+Proof. exact (energy_step Srt n A B A_len B_len A_lin A_sym e). Qed.
+Print Assumptions C01_richardson_energy_step.
+
+(* ---- the AMG cycle as the preconditioner (hypotheses of C02_cycle_energy_strict_decrease /
+   C02_apply_energy_strict: hier_dec, top_strict; hier_lin of C02_apply_linear) ----
+   amg_B npre npost ncycle pre_cycles lvls g = fst (apply ... lvls scr g x) for every well-formed scratch state
+   scr and every incoming x (KrylovRateAmg.amg_B_any); A = mat_op (top matrix) is the closure the
+   correspondence check uses for the system matrix. *)
+From Amgcl Require Import Crs Amg AmgProofs2 AmgProofs4 AmgProofs6 AmgProofs10 KrylovRateAmg KrylovRateCert KrylovRateQc.
+
+Theorem C01_richardson_amg_strict (S : Scalar) (Srt : Sring S) (Seqb : seqb_spec S) (Ord : ordered S)
+  k nc pc (lvls : list (@level S)) :
+  hier_dec lvls -> top_strict lvls -> hier_lin lvls ->
+  wf (top_A lvls) = true -> sym_mat (top_n lvls) (top_A lvls) ->
+  le0 (@s0 S) -> (forall a b : S, le0 a -> le0 b -> le0 (a + b)) -> (forall a b : S, lt0 a -> le0 b -> lt0 (a + b)) ->
+  forall prm (u x0 : vec S) junk nr r w,
+  let n := top_n lvls in let A := mat_op (top_A lvls) in
+  let B := amg_B (Datatypes.S k) (Datatypes.S k) (Datatypes.S nc) (Datatypes.S pc) lvls in
+  nrows (top_A lvls) = n ->
+  length u = n -> length x0 = n -> p_damping prm = s1 ->
+  k_prologue norm_a prm (A u) = Go nr ->
+  richardson A B prm (A u) x0 junk = (KOk r, w) ->
+  forall i, k_it r = Datatypes.S i ->
+  A (vsub u (rich_iter A B s1 (A u) i x0)) <> vzero n ->
+  forall j, j <= i ->
+  olt (qA n (top_A lvls) (vsub u (k_x r)) (vsub u (k_x r)))
+      (qA n (top_A lvls) (vsub u (rich_iter A B s1 (A u) j x0)) (vsub u (rich_iter A B s1 (A u) j x0))).
+Proof.
+  exact (fun Hd Hs Hl WA SA O1 O2 O3 prm u x0 junk nr r w =>
+           richardson_amg_strict Srt Seqb Ord k nc pc lvls Hd Hs Hl WA SA O1 O2 O3 prm u x0 junk nr r w).
+Qed.
+Print Assumptions C01_richardson_amg_strict.
+
+(* a checkable certificate for an EXPLICIT contraction factor of a linear map T given as a function:
+   the matrix of T (checked on the unit vectors) and an L^T D L factorisation of d2 M - T^T M T, D >= 0 *)
+Theorem C01_contraction_certificate (S : Scalar) (Srt : Sring S) (Ord : ordered S) n (M : crs S) (T : vec S -> vec S)
+  (Tm Tmt L Lt Dm : crs S) (d2 : S) :
+  cert n M T Tm Tmt L Lt Dm d2 ->
+  forall e, length e = n -> ole (qA n M (T e) (T e)) (d2 * qA n M e e).
+Proof. exact (cert_contracts Srt Ord n M T Tm Tmt L Lt Dm d2). Qed.
+Print Assumptions C01_contraction_certificate.
+
+(* closed at the exact rationals, no hypothesis left but the vector lengths and the run itself:
+   1-D Poisson (n = 4), two pairwise aggregations, Galerkin operators, damped Jacobi w = 1/2, direct solve on
+   the 1 x 1 level, one V(1,1) cycle: Richardson reduces the energy of the error by (5/16)^2 per iteration *)
+Theorem C01_richardson_amg_rate_Qc prm (u x0 : vec QcS) junk nr r w :
+  length u = 4 -> length x0 = 4 -> p_damping prm = s1 ->
+  k_prologue norm_a prm (mat_op rateM u) = Go nr ->
+  richardson (mat_op rateM) (rateB rateJac 1 1 1) prm (mat_op rateM u) x0 junk = (KOk r, w) ->
+  ole (qA 4 rateM (vsub u (k_x r)) (vsub u (k_x r)))
+      (spow (qc 5 16) (2 * k_it r) * qA 4 rateM (vsub u x0) (vsub u x0)).
+Proof. exact (richardson_amg_rate_Qc prm u x0 junk nr r w). Qed.
+Print Assumptions C01_richardson_amg_rate_Qc.
+
+(* amgcl's default smoothers (damped Jacobi 18/25, Jacobi 1, SPAI-0, Gauss-Seidel), every V(k,k) / W(k,k)
+   cycle with k >= 1, every pre_cycles >= 1, on the same hierarchy: strictly decreasing energies *)
+Theorem C01_richardson_amg_strict_Qc (kd : @AmgExec.relax_kind QcS) k nc pc prm (u x0 : vec QcS) junk nr r w :
+  kd = rateJacDefault \/ kd = rateJacOne \/ kd = @AmgExec.RSpai0 QcS \/ kd = @AmgExec.RGS QcS ->
+  let A := mat_op rateM in
+  let B := rateB kd (Datatypes.S k) (Datatypes.S nc) (Datatypes.S pc) in
+  length u = 4 -> length x0 = 4 -> p_damping prm = s1 ->
+  k_prologue norm_a prm (A u) = Go nr ->
+  richardson A B prm (A u) x0 junk = (KOk r, w) ->
+  forall i, k_it r = Datatypes.S i ->
+  A (vsub u (rich_iter A B s1 (A u) i x0)) <> vzero 4 ->
+  forall j, j <= i ->
+  olt (qA 4 rateM (vsub u (k_x r)) (vsub u (k_x r)))
+      (qA 4 rateM (vsub u (rich_iter A B s1 (A u) j x0)) (vsub u (rich_iter A B s1 (A u) j x0))).
+Proof. exact (richardson_amg_strict_Qc kd k nc pc prm u x0 junk nr r w). Qed.
+Print Assumptions C01_richardson_amg_strict_Qc.
+
+(* the preconditioner of the two theorems above IS the model's apply, for every scratch state / incoming x *)
+Theorem C01_rate_preconditioner_is_apply kd k nc pc scr (g x : vec QcS) :
+  AmgProofs2.scratch_wf (rateLvls kd) scr -> length g = 4 -> length x = 4 ->
+  fst (apply k k nc pc (rateLvls kd) scr g x) = rateB kd k nc pc g.
+Proof. exact (rateB_is_apply kd k nc pc scr g x). Qed.
+Print Assumptions C01_rate_preconditioner_is_apply.
+
+(* non-vacuity and sharpness: the contraction hypothesis of C01_richardson_rate holds for the concrete cycle with
+   delta = 5/16, and 5/16 cannot be improved: the error (1,3,3,1) is mapped to 5/16 of itself *)
+Example C01_rate_hypothesis_satisfiable (e : vec QcS) : length e = 4 ->
+  ole (qA 4 rateM (rateT e) (rateT e)) (qc 5 16 * qc 5 16 * qA 4 rateM e e).
+Proof. exact (rate_contracts e). Qed.
+Example C01_rate_attained :
+  let e : vec QcS := [qc 1 1; qc 3 1; qc 3 1; qc 1 1] in
+  AmgProofs.vec_eqb (rateT e) [qc 5 16; qc 15 16; qc 15 16; qc 5 16] = true /\
+  qA 4 rateM (rateT e) (rateT e) = qc 5 16 * qc 5 16 * qA 4 rateM e e /\ olt s0 (qA 4 rateM e e).
+Proof. exact rate_attained. Qed.
+(* a run of the workspace model that really iterates: u = (1,2,3,4), x0 = 0, tol = 0, maxiter = 3 *)
+Example C01_rate_run_iterates :
+  let u : vec QcS := [qc 1 1; qc 2 1; qc 3 1; qc 4 1] in
+  let prm : @kprm QcS := mkPrm 3 (qc 0 1) (qc 0 1) false false 2 false (qc 1 1) 0 true 2 (qc 0 1) true in
+  match richardson (mat_op rateM) (rateB rateJac 1 1 1) prm (mat_op rateM u) [qc 0 1; qc 0 1; qc 0 1; qc 0 1]
+                   (mkRiWs [] []) with
+  | (KOk r, _) => k_it r = 3 /\
+      sltb (spow (qc 5 16) 6 * qA 4 rateM u u) (qA 4 rateM (vsub u (k_x r)) (vsub u (k_x r))) = false
+  | _ => False
+  end.
+Proof. vm_compute. split; reflexivity. Qed.
+
+(* FULL STATEMENT (unproved): "the asymptotic rate of the iteration EQUALS the spectral radius of I - B A":
+   for every norm, lim_k ||e_k||^(1/k) = rho(I - B A) for generic e_0.  Proved here is the energy-norm form:
+   every bound delta on the A-norm of I - B A is a rate (C01_richardson_rate), the bound is attained on
+   eigenvectors (C01_rate_attained), and for symmetric B the A-norm of I - B A is its spectral radius
+   (I - B A is A-self-adjoint) -- that last identification needs the spectral theorem over a real closed
+   field, which is not formalised (see the corresponding remark in Properties_C02.v, B1 (b)).  The quantitative
+   clause "every coarsening x relaxation x solver combination reaches 1e-8 within 100 iterations on the model
+   problems" stays tested (double build), not proved. *)
